@@ -243,6 +243,18 @@ Section Proofs.
   Lemma step_get st a : step st (Get a) = (st, get_cache (cache_of st) a).
   Proof. reflexivity. Qed.
 
+  (* Get never changes the store: neither memory (cache, content, credsStore) nor file *)
+  Lemma get_pure st a : fst (step st (Get a)) = st.
+  Proof. reflexivity. Qed.
+
+  Definition is_get (o : op) : Prop := match o with Get _ => True | _ => False end.
+
+  Lemma gets_pure h : forall st, Forall is_get h -> run st h = st.
+  Proof.
+    induction h as [|o h IH]; intros st F; [reflexivity|].
+    inversion F as [|? ? G F']; subst. destruct o; try contradiction. simpl. now apply IH.
+  Qed.
+
   Lemma put_refused st a c :
     contains colon (c_user c) = true -> step st (Put a c) = (st, RErrBadCred).
   Proof. intro H. simpl. now rewrite H. Qed.
@@ -442,6 +454,153 @@ Section Proofs.
       + unfold file_entry at 1. rewrite FE. simpl. rewrite AE.
         unfold stf. rewrite run_cache_untouched by exact NW. apply E0.
   Qed.
+
+  (* ----- DisablePut: no secret is ever written ----- *)
+  Notation fs_step := (fs_step b64enc b64dec).
+  Notation fs_run := (fs_run b64enc b64dec).
+
+  Lemma fs_step_enabled st o : fs_step false st o = step st o.
+  Proof. destruct o; reflexivity. Qed.
+
+  Lemma fs_run_enabled h : forall st, fs_run false st h = run st h.
+  Proof. induction h as [|o h IH]; intro st; simpl; [reflexivity|]. now rewrite fs_step_enabled, IH. Qed.
+
+  Lemma put_disabled st a c : fs_step true st (Put a c) = (st, RErrPutDisabled).
+  Proof. reflexivity. Qed.
+
+  Definition not_put (o : op) : bool := match o with Put _ _ => false | _ => true end.
+
+  Lemma fs_run_disabled h : forall st, fs_run true st h = run st (filter not_put h).
+  Proof.
+    induction h as [|o h IH]; intro st; [reflexivity|].
+    destruct o as [a|a c|a]; simpl; now rewrite IH.
+  Qed.
+
+  (* without Puts the cache only loses entries *)
+  Lemma step_cache_shrinks st o a e :
+    not_put o = true ->
+    lookup a (cache_of (fst (step st o))) = Some e -> lookup a (cache_of st) = Some e.
+  Proof.
+    destruct o as [a'|a' c|a']; simpl; intros NP L; [exact L|discriminate|].
+    destruct (lookup a' (m_cache (st_mem st))) eqn:E; [|exact L].
+    unfold cache_of in L. simpl in L.
+    destruct (str_eqb a' a) eqn:EA.
+    - apply str_eqb_spec in EA. subst a'. rewrite lookup_del_eq in L. discriminate.
+    - apply str_eqb_false in EA. now rewrite lookup_del_neq in L.
+  Qed.
+
+  Lemma run_cache_shrinks h : forall st a e,
+    forallb not_put h = true ->
+    lookup a (cache_of (run st h)) = Some e -> lookup a (cache_of st) = Some e.
+  Proof.
+    induction h as [|o h IH]; intros st a e NP L; [exact L|].
+    simpl in NP. apply andb_true_iff in NP as [N1 N2]. simpl in L.
+    apply (step_cache_shrinks st o a e N1). now apply (IH _ a e N2).
+  Qed.
+
+  Lemma filter_not_put h : forallb not_put (filter not_put h) = true.
+  Proof. induction h as [|o h IH]; simpl; [reflexivity|]. destruct (not_put o) eqn:E; simpl; [now rewrite E|exact IH]. Qed.
+
+  (* with DisablePut every auths entry in the file after any history is an entry
+     the opened document already had, unchanged *)
+  Lemma disable_put_no_new_entry f st0 h a e :
+    open_store f = Some st0 ->
+    file_entry a (st_file (fs_run true st0 h)) = Some e -> file_entry a f = Some e.
+  Proof.
+    intros OP FE. rewrite fs_run_disabled in FE.
+    destruct (open_store_spec f st0 OP) as (F0 & _ & E0 & _).
+    pose proof (run_descends (filter not_put h) st0 st0 (descends_refl st0)) as (_ & _ & FILE).
+    destruct FILE as [SAME|(FEQ & AE & _)].
+    - rewrite SAME, F0 in FE. exact FE.
+    - unfold file_entry in FE at 1. rewrite FEQ in FE. simpl in FE. rewrite AE in FE.
+      rewrite <- E0. apply (run_cache_shrinks (filter not_put h) st0 a e (filter_not_put h) FE).
+  Qed.
+
+  (* ----- on plain host addresses the FileStore is the in-memory Store ----- *)
+  Definition plain (a : str) : Prop := to_hostname a = a.
+  Definition good (c : cred) : Prop :=
+    contains colon (c_user c) = false /\ b64ok (c_user c ++ colon :: c_pass c).
+  Definition good_op (o : op) : Prop :=
+    plain (op_addr o) /\ match o with Put _ c => b64ok (c_user c ++ colon :: c_pass c) | _ => True end.
+
+  (* the file store's cache is the map, entry by entry, and holds plain keys only *)
+  Definition sim (st : state) (m : list (str * cred)) : Prop :=
+    (forall k e, In (k, e) (cache_of st) -> plain k) /\
+    (forall a, lookup a (cache_of st) = option_map entry_of_cred (lookup a m)) /\
+    (forall a c, lookup a m = Some c -> good c).
+
+  Lemma lookup_set_case {V} (k a : str) (v : V) l :
+    lookup a (set k v l) = if str_eqb k a then Some v else lookup a l.
+  Proof.
+    destruct (str_eqb k a) eqn:E.
+    - apply str_eqb_spec in E. subst. apply lookup_set_eq.
+    - apply str_eqb_false in E. now apply lookup_set_neq.
+  Qed.
+
+  Lemma lookup_del_case {V} (k a : str) (l : list (str * V)) :
+    lookup a (del k l) = if str_eqb k a then None else lookup a l.
+  Proof.
+    destruct (str_eqb k a) eqn:E.
+    - apply str_eqb_spec in E. subst. apply lookup_del_eq.
+    - apply str_eqb_false in E. now apply lookup_del_neq.
+  Qed.
+
+  Lemma sim_get st m a :
+    sim st m -> plain a ->
+    get_candidates (cache_of st) a = [RCred (match lookup a m with Some c => c | None => empty_cred end)].
+  Proof.
+    intros (PK & LK & GD) PA. destruct (lookup a m) as [c|] eqn:L.
+    - rewrite (candidates_exact _ _ (entry_of_cred c)); [|now rewrite LK, L].
+      destruct (GD a c L) as [NC OK]. now rewrite codec_roundtrip.
+    - apply candidates_none; [now rewrite LK, L|].
+      intros k e I H. pose proof (PK k e I) as PKK. unfold plain in PKK. rewrite PKK in H. subst k.
+      apply (lookup_none_notin a (cache_of st)) in I; [exact I|now rewrite LK, L].
+  Qed.
+
+  Lemma sim_step st m o :
+    sim st m -> good_op o ->
+    snd (step st o) = snd (mem_step m o) /\ sim (fst (step st o)) (fst (mem_step m o)).
+  Proof.
+    intros S (PA & OKO). pose proof S as (PK & LK & GD).
+    destruct o as [a|a c|a]; cbn [op_addr] in PA.
+    - split; [|exact S]. rewrite step_get. cbn [mem_step snd].
+      pose proof (get_cache_in_candidates (cache_of st) a) as I.
+      rewrite (sim_get st m a S PA) in I. destruct I as [I|[]]. now symmetry.
+    - cbn [mem_step]. destruct (contains colon (c_user c)) eqn:NC.
+      + rewrite put_refused by exact NC. split; [reflexivity|exact S].
+      + destruct (put_ok st a c NC) as [R C]. split; [exact R|]. cbn [fst].
+        split; [|split].
+        * intros k e I. rewrite C in I. destruct I as [E|I]; [injection E as <- _; exact PA|].
+          apply in_del in I as [_ I]. now apply (PK k e).
+        * intro a'. rewrite C, !lookup_set_case, LK. now destruct (str_eqb a a').
+        * intros a' c' L. rewrite lookup_set_case in L. destruct (str_eqb a a').
+          -- injection L as <-. split; assumption.
+          -- now apply (GD a').
+    - cbn [mem_step fst snd]. destruct (delete_local st a) as (R & _ & _ & SAME & _).
+      split; [exact R|].
+      assert (C : cache_of (fst (step st (Delete a))) = del a (cache_of st)).
+      { unfold cache_of. simpl. destruct (lookup a (m_cache (st_mem st))) eqn:E; [reflexivity|].
+        simpl. symmetry. unfold del. clear -E. induction (m_cache (st_mem st)) as [|[k v] l IH]; [reflexivity|].
+        simpl in *. destruct (str_eqb a k) eqn:EK; [discriminate|]. simpl. f_equal. now apply IH. }
+      split; [|split].
+      + intros k e I. rewrite C in I. apply in_del in I as [_ I]. now apply (PK k e).
+      + intro a'. rewrite C, !lookup_del_case, LK. now destruct (str_eqb a a').
+      + intros a' c' L. rewrite lookup_del_case in L. destruct (str_eqb a a'); [discriminate|]. now apply (GD a').
+  Qed.
+
+  Lemma refines_memory_store h : forall st m,
+    sim st m -> Forall good_op h ->
+    map fst (run_obs b64enc b64dec st h) = mem_results m h.
+  Proof.
+    induction h as [|o h IH]; intros st m S F; [reflexivity|].
+    inversion F as [|? ? GO F']; subst.
+    destruct (sim_step st m o S GO) as [R S'].
+    cbn [run_obs mem_results]. destruct (step st o) as [st' r] eqn:E. cbn [map fst]. cbn [fst snd] in *.
+    rewrite R. f_equal. now apply IH.
+  Qed.
+
+  Lemma sim_empty f : sim {| st_mem := empty_mem; st_file := f |} [].
+  Proof. split; [intros k e []|]. split; [reflexivity|discriminate]. Qed.
 
   (* ----- reopening the saved file gives a store with the same secrets ----- *)
   Lemma reopen f st0 h :
